@@ -38,9 +38,10 @@ def main():
     rc, out = sh('git diff -- flowdyn', cwd=wt)
     res['worktree_diff_equals_patch'] = out.strip() == open(os.path.join(dst, 'patch.diff')).read().strip()
     rc1, o1 = sh('/venv/bin/python seed/demo.py', cwd=wt, env=env)
-    sh('git stash -q -- flowdyn', cwd=wt)
+    # (no git stash: the stash is shared by all worktrees of a repository)
+    sh('git apply -R seed/patch.diff', cwd=wt)
     rc0, o0 = sh('/venv/bin/python seed/demo.py', cwd=wt, env=env)
-    sh('git stash pop -q', cwd=wt)
+    sh('git apply seed/patch.diff', cwd=wt)
     res['demo_with_change'] = {'exit': rc1, 'tail': o1.strip()[-300:]}
     res['demo_without_change'] = {'exit': rc0, 'tail': o0.strip()[-300:]}
     if '--skip-suite' not in props:
